@@ -19,9 +19,11 @@ namespace PlumVerif.C20
 /-- "differ": numbers by more than 0.1 (sixteenths: 10·|a−b| > 16); parameters when an update
 is pending or (value, min, max) changed; anything else when not equal -/
 def differs : Val → Val → Bool
-  | .num a, .num b => decide (16 < 10 * (a - b).natAbs)
   | .param v mn mx _, .param v' mn' mx' p' => p' || v != v' || mn != mn' || mx != mx'
-  | x, y => x != y
+  | x, y =>
+    match x.numOf, y.numOf with
+    | some a, some b => decide (16 < 10 * (a - b).natAbs)   -- numbers (True / False count as 1 / 0)
+    | _, _ => x != y
 
 def Out.value? : Out → Option Val
   | .deliver v => some v
@@ -40,8 +42,7 @@ def trailing (p : Val → Bool) (l : List Val) : Nat := (l.reverse.takeWhile p).
 
 def numSum : List Val → Int
   | [] => 0
-  | .num n :: r => n + numSum r
-  | _ :: r => numSum r
+  | v :: r => v.numOf.getD 0 + numSum r
 
 /-- the reference value of `delta` after the calls -/
 def recorded (vs : List Val) : Option Val :=
@@ -78,21 +79,23 @@ def expectDelta (pre : List Call) (_os : List Out) (c : Call) : Out :=
   | some d =>
     if differs d c.v then
       match d, c.v with
-      | .num a, .num b => .deliver (.num (b - a))
       | .list a, .list b => .deliver (.list (b.filter fun x => !a.contains x))
       | .param .., .param .. => .raised
-      | _, _ => .skip
+      | x, y =>
+        match x.numOf, y.numOf with
+        | some a, some b => .deliver (.num (b - a))
+        | _, _ => .skip
     else .skip
 
 /-- aggregate: once `secs` passed since the last delivery (or since the filter was built at `t0`)
 the sum of the values since then is delivered; non-numeric values are refused -/
 def expectAggregate (secs t0 : Int) (pre : List Call) (os : List Out) (c : Call) : Out :=
-  match c.v with
-  | .num n =>
+  match c.v.numOf with
+  | some n =>
     if secs ≤ c.t - (lastDeliveryTime pre os).getD t0 then
       .deliver (.num (numSum (sinceDelivery pre os) + n))
     else .skip
-  | _ => .raised
+  | Option.none => .raised
 
 def expectCustom (p : Pred) (_pre : List Call) (_os : List Out) (c : Call) : Out :=
   if p.eval c.v then .deliver c.v else .skip
